@@ -35,6 +35,7 @@ type world struct {
 	nextTEID uint32
 	nextCP   uint64
 	wait     time.Duration
+	seqNext  uint32 // when non-zero, the next request uses this sequence number
 }
 
 func newWorld(c *ctx, o sysh.Opts) (*world, error) {
@@ -44,6 +45,16 @@ func newWorld(c *ctx, o sysh.Opts) (*world, error) {
 	}
 	w := &world{c: c, s: s, nextUE: 0x0A3C0001, nextTEID: 1000, nextCP: 5000, wait: 2500 * time.Millisecond}
 	return w, nil
+}
+
+// seq returns the sequence number for the next request of peer p.
+func (w *world) seq(p *sysh.Peer) uint32 {
+	if w.seqNext != 0 {
+		s := w.seqNext & 0xFFFFFF
+		w.seqNext = 0
+		return s
+	}
+	return p.NextSeq()
 }
 
 func (w *world) emit(class string, nontrivial bool, ev map[string]interface{}) {
@@ -144,7 +155,7 @@ func (w *world) assoc(a int) bool {
 		w.nodes = append(w.nodes, p.Addr)
 	}
 	p := w.peers[a]
-	seq := p.NextSeq()
+	seq := w.seq(p)
 	req := message.NewAssociationSetupRequest(seq, ie.NewNodeID(w.nodes[a], "", ""), ie.NewRecoveryTimeStamp(time.Unix(1700000000, 0)))
 	replies, barrier := p.Exchange(sysh.Marshal(req), w.wait)
 	o := w.observe(replies, barrier, seq, false)
@@ -154,7 +165,7 @@ func (w *world) assoc(a int) bool {
 
 func (w *world) est(a int, node string, cp uint64, pdrs []sysh.PdrIE, fars []sysh.FarIE, qers []sysh.QerIE, class string) (*hsess, sysh.Obs) {
 	p := w.peers[a]
-	seq := p.NextSeq()
+	seq := w.seq(p)
 	ies := []*ie.IE{ie.NewNodeID(node, "", ""), ie.NewFSEID(cp, p.IP, nil)}
 	for _, x := range pdrs {
 		ies = append(ies, x.Create())
@@ -233,7 +244,7 @@ type modReq struct {
 
 func (w *world) mod(a int, seid uint64, m modReq, class string) sysh.Obs {
 	p := w.peers[a]
-	seq := p.NextSeq()
+	seq := w.seq(p)
 	var ies []*ie.IE
 	if m.cpf != nil {
 		ies = append(ies, ie.NewFSEID(m.cpf[0], sysh.IP4(uint32(m.cpf[1])), nil))
@@ -279,7 +290,7 @@ func (w *world) mod(a int, seid uint64, m modReq, class string) sysh.Obs {
 
 func (w *world) del(a int, seid uint64, class string) sysh.Obs {
 	p := w.peers[a]
-	seq := p.NextSeq()
+	seq := w.seq(p)
 	req := message.NewSessionDeletionRequest(0, 0, seid, seq, 0)
 	replies, barrier := p.Exchange(sysh.Marshal(req), w.wait)
 	o := w.observe(replies, barrier, seq, false)
@@ -289,7 +300,7 @@ func (w *world) del(a int, seid uint64, class string) sysh.Obs {
 
 func (w *world) release(a int) sysh.Obs {
 	p := w.peers[a]
-	seq := p.NextSeq()
+	seq := w.seq(p)
 	req := message.NewAssociationReleaseRequest(seq, ie.NewNodeID(w.nodes[a], "", ""))
 	replies, barrier := p.Exchange(sysh.Marshal(req), w.wait)
 	// Shutdown runs after the response was sent (deferred): wait until the datapath is quiet
@@ -304,6 +315,7 @@ func (w *world) release(a int) sysh.Obs {
 	}
 	o := w.observe(replies, barrier, seq, false)
 	w.emit("release", true, map[string]interface{}{"k": "release", "a": a, "obs": o})
+	p.Fresh = true // the association is gone: the next datagram sets up a new one
 	for _, s := range w.sessions {
 		if s.a == a {
 			s.dead = true
@@ -320,7 +332,7 @@ type appPFD struct {
 // pfd provisions the application table; bad injects an element without flow description (the request must be rejected).
 func (w *world) pfd(a int, apps []appPFD, bad bool) sysh.Obs {
 	p := w.peers[a]
-	seq := p.NextSeq()
+	seq := w.seq(p)
 	var ies []*ie.IE
 	for i, ap := range apps {
 		var ctx []*ie.IE
@@ -336,6 +348,34 @@ func (w *world) pfd(a int, apps []appPFD, bad bool) sysh.Obs {
 	replies, barrier := p.Exchange(sysh.Marshal(req), w.wait)
 	o := w.observe(replies, barrier, seq, false)
 	w.emit("pfd", o.Cause == 1, map[string]interface{}{"k": "pfd", "a": a, "apps": apps, "bad": bad, "obs": o})
+	return o
+}
+
+// hb sends a Heartbeat Request on association a (creating the peer when needed).
+func (w *world) hb(a int) sysh.Obs {
+	for len(w.peers) <= a {
+		p, err := w.s.NewPeer(true)
+		if err != nil {
+			panic(err)
+		}
+		w.peers = append(w.peers, p)
+		w.nodes = append(w.nodes, p.Addr)
+	}
+	p := w.peers[a]
+	seq := w.seq(p)
+	req := message.NewHeartbeatRequest(seq, ie.NewRecoveryTimeStamp(time.Unix(1700000000, 0)), nil)
+	replies, barrier := p.Exchange(sysh.Marshal(req), w.wait)
+	o := w.observe(replies, barrier, seq, false)
+	w.emit("hb", true, map[string]interface{}{"k": "hb", "a": a, "obs": o})
+	return o
+}
+
+// resp sends a response-type message; it must not be answered.
+func (w *world) resp(a int, m message.Message) sysh.Obs {
+	p := w.peers[a]
+	replies, barrier := p.Exchange(sysh.Marshal(m), w.wait)
+	o := w.observe(replies, barrier, m.Sequence(), false)
+	w.emit(fmt.Sprintf("resp/%d", m.MessageType()), true, map[string]interface{}{"k": "resp", "a": a, "type": m.MessageType(), "obs": o})
 	return o
 }
 
